@@ -90,9 +90,33 @@ fn generate_indirect_store_item(structitems: &[DataItem]) -> Vec<TokenStream> {
         stored_structitems.push(match &item.basetype {
             BaseType::Sequence { seqtype } => {
                 let itemname = format_ident!("{}", item.varname.as_ref().unwrap());
-                let locationinfo = quote! {(*#location.get(idx).unwrap_or_else(|| &0))};
+                // the location info of an integer is (offset, is_hex), all others only have an offset
+                let is_integer = matches!(
+                    **seqtype,
+                    BaseType::Char
+                        | BaseType::Int
+                        | BaseType::Long
+                        | BaseType::Int64
+                        | BaseType::Uchar
+                        | BaseType::Uint
+                        | BaseType::Ulong
+                        | BaseType::Uint64
+                );
+                let is_number =
+                    is_integer || matches!(**seqtype, BaseType::Float | BaseType::Double);
+                let locationinfo = if is_integer {
+                    quote! {(*#location.get(idx).unwrap_or_else(|| &(0, false)))}
+                } else {
+                    quote! {(*#location.get(idx).unwrap_or_else(|| &0))}
+                };
+                // numbers are stored by value, so the reference provided by iter() must be dereferenced
+                let seqitem = if is_number {
+                    quote! {*item}
+                } else {
+                    quote! {item}
+                };
                 let parsercall =
-                    generate_indirect_store_simple_item(&quote! {item}, &locationinfo, seqtype);
+                    generate_indirect_store_simple_item(&seqitem, &locationinfo, seqtype);
                 storageidx += 1;
                 quote! {a2lfile::GenericIfData::Sequence({
                     let mut sequence_content = Vec::new();
